@@ -333,7 +333,7 @@ static void deadlock_report() {
 // current thread must stop running (blocked or done): pass the baton on
 static bool wake_waiters_timed_out() {     // nothing else can run: harness-level waits (sched_wait) give up instead of deadlocking
   bool any = false;
-  for (int i = 0; i < g_nvt; i++) { VThread& o = g_vt[i]; if (o.state == VS_BLOCKED && o.block_kind == BK_WAIT) { o.state = VS_RUNNABLE; o.block_kind = BK_NONE; o.block_on = nullptr; o.wait_timed_out = true; any = true; } }
+  for (int i = 0; i < g_nvt; i++) { VThread& o = g_vt[i]; if (o.state == VS_BLOCKED && (o.block_kind == BK_WAIT || o.block_kind == BK_BARRIER)) { o.state = VS_RUNNABLE; o.block_kind = BK_NONE; o.block_on = nullptr; o.wait_timed_out = true; any = true; } }
   return any;
 }
 static void switch_away(VThread* self) {
@@ -654,9 +654,11 @@ void sched_barrier(int id, int parties) {
     return;
   }
   int gen = b->generation;
+  t->wait_timed_out = false;
   while (true) {
     Barrier* bb = nullptr; for (auto& x : g_barriers) if (x.id == id) bb = &x;
     if (bb->generation != gen) break;
+    if (t->wait_timed_out) { if (bb->arrived > 0) bb->arrived--; break; }     // the missing parties can never arrive (a shrunk plan): give up instead of deadlocking
     t->state = VS_BLOCKED; t->block_kind = BK_BARRIER; t->block_on = (void*)(intptr_t)(id + 1);
     switch_away(t);
   }
